@@ -1012,10 +1012,52 @@ def gen_ambiguity(tier, seed):
         for mt in MOLTYPES:
             for sym in sorted(S.symbol_sets(mt)):
                 yield [impl, mt, sym]
+    # the same letters mean different things to different molecular types (A, C, G, T/U are amino acids too): the
+    # encoders asked about one set of letters by several molecular types in one process, in every order
+    for impl in ("old", "new"):
+        for order in itertools.permutations(("dna", "rna", "protein")):
+            yield [impl, "+".join(order), "@interleaved"]
+
+
+def _least_symbol(sets, letters):
+    """the symbol whose set is the smallest one containing the letters (None when that is not unique)"""
+    cands = sorted(((len(v), k) for k, v in sets.items() if letters <= v and "-" not in v and "?" != k))
+    if not cands or (len(cands) > 1 and cands[0][0] == cands[1][0]):
+        return None
+    return cands[0][1]
+
+
+def _contract_interleaved(impl, order):
+    from cogent3.core import moltype, new_moltype
+    mod = new_moltype if impl == "new" else moltype
+    probes = [frozenset("AG"), frozenset("AC"), frozenset("CG"), frozenset("ACG"), frozenset("A"), frozenset("DN"), frozenset("EQ")]
+    for rnd_ in (0, 1):                       # second round: every memo is warm
+        for mt in order:
+            m = mod.get_moltype(mt)
+            sets = S.symbol_sets(mt)
+            canon = {k for k, v in sets.items() if len(v) == 1 and k == next(iter(v))}
+            for letters in probes:
+                if not letters <= canon:
+                    continue
+                want = _least_symbol(sets, letters)
+                if want is None:
+                    continue
+                for enc in (["what_ambiguity", "degenerate_from_seq"] if impl == "old" else ["degenerate_from_seq"]):
+                    arg = "".join(sorted(letters))
+                    try:
+                        got = getattr(m, enc)(arg if enc == "degenerate_from_seq" else tuple(arg))
+                    except Exception as e:
+                        return ("fail", f"ambiguity/{impl}/interleaved/{enc}/raises-{type(e).__name__}", f"{mt} after {order}: {enc}({arg!r}): {_exc(e)}")
+                    if got != want:
+                        return ("fail", f"ambiguity/{impl}/interleaved/{enc}/wrong-symbol/{mt}",
+                                f"molecular types asked in the order {list(order)} (round {rnd_}): {mt}.{enc}({arg!r}) = {got!r}, the {mt} table says {want!r}")
+    return ("ok", True)
 
 
 def contract_ambiguity(case):
     impl, mt, sym = case
+    if sym == "@interleaved":
+        return _contract_interleaved(impl, mt.split("+"))
     from cogent3.core import moltype, new_moltype
     m = (new_moltype if impl == "new" else moltype).get_moltype(mt)
     sets = S.symbol_sets(mt)
